@@ -30,7 +30,7 @@ partial def parseMapMembers (tt : TyTab) : List Sexp → Option Tree
         | some (.list [_, .atom "-"]) => Tag.skip
         | some (.list [_, .atom t]) => Tag.name t
         | _ => Tag.none
-      some (.field { name := name, ty := ty, tag := tag, get := o.hasFlag "get", set := o.hasFlag "set", newMark := o.hasFlag "new" } r)
+      some (.field { name := name, ty := ty, tag := tag, get := o.hasFlag "get", set := o.hasFlag "set", newMark := o.hasFlag "new", joined := o.hasFlag "join" } r)
     | .list [.atom "e", .atom name, .atom p, .list (.atom "body" :: ms)] => do
       let b ← parseMapMembers tt ms
       some (.embed name (p == "ptr") b r)
